@@ -548,6 +548,60 @@ type RouteSpec struct {
 	Name    string
 	Pat     *Pattern
 	Methods []string
+	// Grp > 0: the route is registered inside Grp nested Group() calls whose prefixes are the
+	// first Grp literal segments of the pattern; GrpRel: the inner prefix is given without
+	// its leading slash. The full path is the same text either way.
+	Grp    int
+	GrpRel bool
+}
+
+// groupable returns how many leading segments of the pattern can be moved into group prefixes.
+func (p *Pattern) groupable() int {
+	k := 0
+	for k < len(p.Segs)-1 && k < 2 && p.Segs[k].Var == nil && strings.TrimSpace(p.Segs[k].Pre) != "" && !strings.ContainsAny(p.Segs[k].Pre, "[]{}*") {
+		k++
+	}
+	return k
+}
+
+// Register adds the route to the router (directly, or inside nested groups).
+func (rs *RouteSpec) Register(r *rux.Router, h rux.HandlerFunc) (route *rux.Route) {
+	if rs.Grp == 0 {
+		return r.AddNamed(rs.Name, rs.Pat.String(), h, rs.Methods...)
+	}
+	rest := &Pattern{Segs: rs.Pat.Segs[rs.Grp:], Opts: rs.Pat.Opts}
+	add := func() { route = r.AddNamed(rs.Name, rest.String(), h, rs.Methods...) }
+	if rs.Grp == 1 {
+		pre := "/" + rs.Pat.Segs[0].Pre
+		if rs.GrpRel {
+			pre = rs.Pat.Segs[0].Pre
+		}
+		r.Group(pre, add)
+		return
+	}
+	inner := "/" + rs.Pat.Segs[1].Pre
+	if rs.GrpRel {
+		inner = rs.Pat.Segs[1].Pre
+	}
+	r.Group("/"+rs.Pat.Segs[0].Pre, func() { r.Group(inner, add) })
+	return
+}
+
+// NewRouterVia applies the options through rux.New (0), through WithOptions on
+// a fresh router (1) or half and half (2): the outcome must be the same.
+func NewRouterVia(via int, opts ...func(*rux.Router)) *rux.Router {
+	switch via {
+	case 1:
+		r := rux.New()
+		r.WithOptions(opts...)
+		return r
+	case 2:
+		k := len(opts) / 2
+		r := rux.New(opts[:k]...)
+		r.WithOptions(opts[k:]...)
+		return r
+	}
+	return rux.New(opts...)
 }
 
 func (rs *RouteSpec) Allows(m string) bool {
@@ -561,12 +615,21 @@ func (rs *RouteSpec) Allows(m string) bool {
 
 type Table struct {
 	Routes []*RouteSpec
+	Via    int // how the router options are applied (NewRouterVia)
 }
 
 func (tb *Table) Describe() any {
 	var out []map[string]any
 	for _, r := range tb.Routes {
-		out = append(out, map[string]any{"name": r.Name, "path": r.Pat.String(), "methods": strings.Join(r.Methods, ",")})
+		m := map[string]any{"name": r.Name, "path": r.Pat.String(), "methods": strings.Join(r.Methods, ",")}
+		if r.Grp > 0 {
+			m["registered_inside_nested_groups"] = r.Grp
+			m["inner_prefix_without_leading_slash"] = r.GrpRel
+		}
+		out = append(out, m)
+	}
+	if tb.Via != 0 {
+		out = append(out, map[string]any{"router_options_applied": []string{"", "New() then WithOptions(all)", "New(first half) then WithOptions(rest)"}[tb.Via]})
 	}
 	return out
 }
@@ -618,8 +681,14 @@ func GenTable(r *rand.Rand, n int, getSkew int) *Table {
 				static[m+p.String()] = true
 			}
 		}
-		tb.Routes = append(tb.Routes, &RouteSpec{Name: "r" + itoa(len(tb.Routes)), Pat: p, Methods: ms})
+		rs := &RouteSpec{Name: "r" + itoa(len(tb.Routes)), Pat: p, Methods: ms}
+		if k := p.groupable(); k > 0 && chance(r, 1, 4) {
+			rs.Grp = 1 + r.IntN(k)
+			rs.GrpRel = chance(r, 1, 2)
+		}
+		tb.Routes = append(tb.Routes, rs)
 	}
+	tb.Via = pick(r, []int{0, 0, 1, 2})
 	return tb
 }
 
